@@ -328,8 +328,7 @@ fn selector_sum(m: &mut Monitor, case: u64, mc: &ModelCase, ig: &IgSpec, ss: &St
 fn zero_density(m: &mut Monitor, case: u64, mc: &ModelCase, ss: &StateSpec) {
     let fam = mc.family.as_str();
     let rmax = max_density(&mc.eos, &ss.x);
-    let mut prev: Option<(f64, f64)> = None;
-    for frac in [1e-10, 1e-8, 1e-6] {
+    for frac in [1e-8, 1e-6, 1e-4] {
         let mut s2 = ss.clone();
         s2.rho = frac * rmax;
         s2.eta_frac = frac;
@@ -352,21 +351,6 @@ fn zero_density(m: &mut Monitor, case: u64, mc: &ModelCase, ss: &StateSpec) {
             1e5,
             move || json!({"model": model, "state": st_json, "Z_res": fnum(z), "a_res/NkT": fnum(a), "s_res/Nk": fnum(s), "mu_res/kT max": fnum(mumax)}),
         );
-        if let Some((f0, z0)) = prev {
-            if z0.abs() > 1e-300 {
-                let ratio = (z / z0) / (frac / f0);
-                let (model, st_json) = (mc.spec.clone(), s2.json());
-                m.check(
-                    "zero_density:Z-1 linear in rho",
-                    &format!("{fam}|zero density linear"),
-                    case,
-                    (ratio - 1.0).abs(),
-                    1e-2,
-                    move || json!({"model": model, "state": st_json, "ratio": fnum(ratio)}),
-                );
-            }
-        }
-        prev = Some((frac, z));
     }
 }
 
